@@ -311,6 +311,16 @@ class SplitTupleAssign(ast.NodeTransformer):
                 captured |= {x.id for x in ast.walk(sub) if isinstance(x, ast.Name)}
 
         def split(st):
+            # `q, r = divmod(a, b)` with call-free operands is `(a // b, a % b)` (for the integers and floats the code divides)
+            if isinstance(st, ast.Assign) and len(st.targets) == 1 and isinstance(st.targets[0], ast.Tuple) and len(st.targets[0].elts) == 2 and \
+                    isinstance(st.value, ast.Call) and isinstance(st.value.func, ast.Name) and st.value.func.id == 'divmod' and \
+                    len(st.value.args) == 2 and not st.value.keywords and \
+                    not any(isinstance(x, (ast.Call, ast.Await, ast.Yield, ast.YieldFrom, ast.NamedExpr, ast.Starred)) for a_ in st.value.args for x in ast.walk(a_)):
+                a_, b_ = st.value.args
+                st = ast.copy_location(ast.Assign(targets=st.targets, value=ast.copy_location(ast.Tuple(elts=[
+                    ast.BinOp(left=copy_tree(a_), op=ast.FloorDiv(), right=copy_tree(b_)), ast.BinOp(left=copy_tree(a_), op=ast.Mod(), right=copy_tree(b_))],
+                    ctx=ast.Load()), st.value), type_comment=None), st)
+                ast.fix_missing_locations(st)
             if not (isinstance(st, ast.Assign) and len(st.targets) == 1 and isinstance(st.targets[0], ast.Tuple) and isinstance(st.value, ast.Tuple)):
                 return [st]
             tg, v = st.targets[0], st.value
@@ -844,6 +854,26 @@ class TableUnroll(ast.NodeTransformer):
             return ast.copy_location(ast.Attribute(value=node.args[0], attr=node.args[1].value, ctx=ast.Load()), node)
         return node
 
+    def visit_Subscript(self, node):
+        """FLAG_TABLE[bool(E)] / FLAG_TABLE[<comparison>] with a module level {True: A, False: B} -> (A if E else B)"""
+        self.generic_visit(node)
+        if not isinstance(node.ctx, ast.Load) or not isinstance(node.value, ast.Name):
+            return node
+        d = self.constants.get(node.value.id)
+        if not isinstance(d, ast.Dict):
+            return node
+        k = node.slice
+        test = None
+        if isinstance(k, ast.Call) and isinstance(k.func, ast.Name) and k.func.id == 'bool' and len(k.args) == 1 and not k.keywords:
+            test = k.args[0]
+        elif isinstance(k, ast.Compare) or (isinstance(k, ast.UnaryOp) and isinstance(k.op, ast.Not)):
+            test = k
+        if test is None:
+            return node
+        vals = {kk.value: v for kk, v in zip(d.keys, d.values)}
+        self.dispatch_rewritten = True
+        return ast.copy_location(ast.IfExp(test=test, body=copy_tree(vals[True]), orelse=copy_tree(vals[False])), node)
+
     def visit_FunctionDef(self, fn):
         self.generic_visit(fn)
         loads = {}
@@ -937,6 +967,10 @@ def literal_tables(tree):
             if isinstance(st, ast.Assign) and len(st.targets) == 1 and isinstance(st.targets[0], ast.Name) and \
                     isinstance(st.value, (ast.Tuple, ast.List)) and st.value.elts and all(_simple_elt(e) for e in st.value.elts):
                 cand[prefix + st.targets[0].id] = (st.targets[0].id, st.value)
+            elif isinstance(st, ast.Assign) and len(st.targets) == 1 and isinstance(st.targets[0], ast.Name) and isinstance(st.value, ast.Dict) and \
+                    len(st.value.keys) == 2 and all(isinstance(k, ast.Constant) and isinstance(k.value, bool) for k in st.value.keys) and \
+                    {k.value for k in st.value.keys} == {True, False}:
+                cand[prefix + st.targets[0].id] = (st.targets[0].id, st.value)         # a two-way dispatch table keyed by a flag
             elif isinstance(st, ast.ClassDef):
                 scan(st.body, '.')
     scan(tree.body, '')
@@ -1391,6 +1425,15 @@ def _inline_new_constants_once(tree, rel):
             return True
         if isinstance(v, ast.Tuple) and v.elts and all(dotted_global(e) for e in v.elts):   # ERRORS = (pickle.UnpicklingError, EOFError)
             return True
+        # FLAGS = os.O_WRONLY | os.O_CREAT | os.O_EXCL: bit combinations of constants of imported modules
+        def flag_expr(e):
+            if isinstance(e, ast.BinOp) and isinstance(e.op, (ast.BitOr, ast.BitAnd)):
+                return flag_expr(e.left) and flag_expr(e.right)
+            if isinstance(e, ast.Attribute):
+                return e.attr.isupper() and dotted_global(e)
+            return isinstance(e, ast.Constant) and type(e.value) is int
+        if isinstance(v, ast.BinOp) and flag_expr(v):
+            return True
         return isinstance(v, ast.Tuple) and all(immutable_literal(e) for e in v.elts)       # DEFAULT_SIZE = (256, 256)
 
     import builtins
@@ -1629,7 +1672,11 @@ def simplify_tree(tree):
                     if isinstance(n, ast.Name) and isinstance(n.ctx, ast.Store):
                         bound_in_fns.add(n.id)
     consts = {k: v for k, v in consts.items() if k.lstrip('.') not in bound_in_fns or k.startswith('.')}
-    tree = TableUnroll(consts).visit(tree)
+    tu = TableUnroll(consts)
+    tree = tu.visit(tree)
+    if getattr(tu, 'dispatch_rewritten', False):
+        from .model import _LowerIfExp
+        tree = _LowerIfExp().visit(tree)
     tree = ConstFold().visit(tree)
     tree = keywords_to_positional(tree)
     tree = LambdaInline().visit(tree)
